@@ -1,30 +1,224 @@
-"""C13 translator piece: regenerates lean/Koreo/Gen/PredicateTable.lean from
-src/koreo/predicate_helpers.py (the filter condition of `predicate_extractor` and the
-ordered `case` table of `predicate_to_koreo_result`) and from src/koreo/cel/evaluation.py
-(`evaluate_predicates`: scan before the structural match; both handlers return PermFail)."""
+"""C13 translator piece: regenerates lean/Koreo/Gen/PredicateTable.lean.
+
+The facts the theorems compare with the model are obtained by **probing the real functions** of the
+tree under VERIF_REPO on a small fixed input table (so that a refactoring that keeps the behaviour
+keeps the table, whatever its statement shapes are):
+
+  * `predicate_extractor`  — compiled on assertion patterns (true / false / non-boolean at each
+    position) and evaluated: which predicates survive, in which order, or an error;
+  * `predicate_to_koreo_result` — outcome class per assertion kind, the order in which the kinds
+    are tried (a predicate carrying two kind keys), "only the first remaining predicate decides",
+    the conversion of a retry delay;
+  * `evaluate_predicates` — on stand-in programs that raise / return a list with an error object
+    in the first or in a later survivor / return something that is not a list.
+
+A syntactic scan of the source is kept as a *secondary* signal: it reports "yes", "no" or
+"unknown"; only a definite "no" breaks an obligation.
+"""
 from __future__ import annotations
 
 import ast
+import itertools
 
 from common import REPO
 from extract import _sha, _write, lean_str
 
 SRC = REPO / "src" / "koreo"
 
+KINDS = ["ok", "depSkip", "skip", "retry", "permFail"]
+# (name, assertion values): t = true, f = false, n = not a boolean
+PATTERNS = ["", "t", "f", "n", "tt", "tf", "ft", "ff", "tn", "nt", "fn", "nf", "ftf", "tff", "fnf", "fft"]
 
-def _ret_class(stmts):
-    """what a case body returns: 'continue' (None) | result-class name | None (not understood)"""
-    if not stmts or not isinstance(stmts[-1], ast.Return):
-        return None
-    v = stmts[-1].value
-    if v is None or (isinstance(v, ast.Constant) and v.value is None):
+
+def _cls(o) -> str:
+    if o is None:
         return "continue"
-    if isinstance(v, ast.Call):
-        f = v.func
-        name = f.attr if isinstance(f, ast.Attribute) else f.id if isinstance(f, ast.Name) else None
-        if name in ("DepSkip", "Skip", "Retry", "PermFail", "Ok"):
-            return name
-    return None
+    return type(o).__name__
+
+
+def _probe() -> dict:
+    """run the real code; every entry is a plain string so that a crash shows up as a differing fact"""
+    import celpy
+    from celpy import celtypes
+
+    from koreo.cel import evaluation
+    from koreo.cel.functions import koreo_function_annotations
+    from koreo.predicate_helpers import predicate_extractor, predicate_to_koreo_result
+
+    def safe(fn):
+        try:
+            return fn()
+        except BaseException as e:  # a fact, not a failure of the translator
+            return f"raised:{type(e).__name__}"
+
+    def pred(kind_bodies: dict):
+        return {"assert": False, **kind_bodies}
+
+    def body(kind, msg="m", delay=7):
+        if kind == "ok":
+            return {}
+        if kind == "retry":
+            return {"message": msg, "delay": delay}
+        return {"message": msg}
+
+    def result_of(preds):
+        return predicate_to_koreo_result(celpy.json_to_cel(preds), location="L")
+
+    facts: dict = {}
+
+    # ---- outcome class per kind; unknown key; no key
+    per_kind = {k: safe(lambda k=k: _cls(result_of([pred({k: body(k)})]))) for k in KINDS}
+    per_kind["_"] = safe(lambda: _cls(result_of([pred({"warn": {"message": "m"}})])))
+    facts["bare"] = safe(lambda: _cls(result_of([{"assert": False}])))
+
+    # ---- the order in which the kinds are tried: a predicate that carries two kind keys
+    beats = {k: 0 for k in KINDS}
+    order_ok = True
+    for a, b in itertools.combinations(KINDS, 2):
+        got = safe(lambda a=a, b=b: _cls(result_of([pred({b: body(b), a: body(a)})])))
+        if got == per_kind[a] and got != per_kind[b]:
+            beats[a] += 1
+        elif got == per_kind[b] and got != per_kind[a]:
+            beats[b] += 1
+        else:
+            order_ok = False
+    order = sorted(KINDS, key=lambda k: -beats[k])
+    if sorted(beats.values()) != list(range(len(KINDS))):
+        order_ok = False
+    facts["cases"] = [(k, per_kind[k]) for k in order] + [("_", per_kind["_"])]
+    facts["order_ok"] = order_ok
+
+    # ---- only the first remaining predicate decides; its own message / delay are returned
+    def first_only():
+        out = []
+        r1 = result_of([pred({"skip": body("skip", "first")}), pred({"permFail": body("permFail", "second")})])
+        out.append(("skip first; permFail second", f"{_cls(r1)}:{getattr(r1, 'message', None)}"))
+        r2 = result_of([pred({"ok": {}}), pred({"permFail": body("permFail", "second")})])
+        out.append(("ok; permFail second", _cls(r2)))
+        r3 = result_of([pred({"retry": body("retry", "wait", 9)}), pred({"skip": body("skip", "later")})])
+        out.append(("retry 9 wait; skip later", f"{_cls(r3)}:{getattr(r3, 'message', None)}:{getattr(r3, 'delay', None)}"))
+        r4 = result_of([])
+        out.append(("empty", _cls(r4)))
+        return out
+    fo = safe(first_only)
+    facts["first_only"] = fo if isinstance(fo, list) else [("probe", fo)]
+
+    # ---- retry delay conversion
+    delays = [("0", celtypes.IntType(0)), ("7", celtypes.IntType(7)), ("-1", celtypes.IntType(-1)),
+              ("true", celtypes.BoolType(True)), ("false", celtypes.BoolType(False)),
+              ('"12"', celtypes.StringType("12")), ('"1.0"', celtypes.StringType("1.0")),
+              ('"abc"', celtypes.StringType("abc")), ("2.0", celtypes.DoubleType(2.0)),
+              ("1.5", celtypes.DoubleType(1.5)), ("null", None), ("[1]", celtypes.ListType([celtypes.IntType(1)]))]
+
+    def delay_fact(v):
+        p = celtypes.MapType({celtypes.StringType("assert"): celtypes.BoolType(False),
+                              celtypes.StringType("retry"): celtypes.MapType({
+                                  celtypes.StringType("message"): celtypes.StringType("m"),
+                                  celtypes.StringType("delay"): v})})
+        r = predicate_to_koreo_result(celtypes.ListType([p]), location="L")
+        if _cls(r) == "Retry":
+            return str(int(r.delay)) if isinstance(r.delay, int) and not isinstance(r.delay, bool) else f"odd:{r.delay!r}"
+        return "invalid" if _cls(r) == "PermFail" else _cls(r)
+    facts["delays"] = [(name, safe(lambda v=v: delay_fact(v))) for name, v in delays]
+
+    # ---- the filter program built by predicate_extractor
+    env = celpy.Environment(annotations=koreo_function_annotations)
+    src = {"t": "=true", "f": "=false", "n": '="x"'}
+
+    def filter_fact(pat):
+        if not pat:
+            prog = predicate_extractor(env, [])
+            return "none" if prog is None else "program"
+        spec = [{"assert": src[c], "skip": {"message": f"{i}"}} for i, c in enumerate(pat)]
+        prog = predicate_extractor(env, spec)
+        if not isinstance(prog, celpy.Runner):
+            return f"prepare:{_cls(prog)}"
+        try:
+            v = prog.evaluate({})
+        except celpy.CELEvalError:
+            return "error"
+        if isinstance(v, celpy.CELEvalError):
+            return "error"
+        return "[" + ",".join(str(p["skip"]["message"]) for p in v) + "]"
+    facts["filter"] = [(pat, safe(lambda pat=pat: filter_fact(pat))) for pat in PATTERNS]
+
+    # ---- evaluate_predicates on stand-in programs
+    class Prog:
+        def __init__(self, act):
+            self.act = act
+
+        def evaluate(self, activation):
+            return self.act()
+
+    def raises(exc):
+        def act():
+            raise exc
+        return act
+
+    def skip_pred(msg):
+        return celtypes.MapType({celtypes.StringType("assert"): celtypes.BoolType(False),
+                                 celtypes.StringType("skip"): celtypes.MapType({celtypes.StringType("message"): msg})})
+    err = celpy.CELEvalError("planted")
+    stimuli = [
+        ("raises CELEvalError", raises(celpy.CELEvalError("boom"))),
+        ("raises ValueError", raises(ValueError("boom"))),
+        ("returns an error value", lambda: celpy.CELEvalError("boom")),
+        ("error in the first survivor", lambda: celtypes.ListType([skip_pred(err), skip_pred(celtypes.StringType("b"))])),
+        ("error in a later survivor", lambda: celtypes.ListType([skip_pred(celtypes.StringType("a")), skip_pred(err)])),
+        ("not a list", lambda: celtypes.MapType({})),
+        ("clean: skip a; skip b", lambda: celtypes.ListType([skip_pred(celtypes.StringType("a")),
+                                                            skip_pred(celtypes.StringType("b"))])),
+        ("no survivor", lambda: celtypes.ListType([])),
+    ]
+
+    def ep_fact(act):
+        r = evaluation.evaluate_predicates(Prog(act), {"inputs": celtypes.MapType({})}, "L")
+        c = _cls(r)
+        return f"{c}:{r.message}" if c == "Skip" else c
+    facts["evaluate_predicates"] = [(name, safe(lambda act=act: ep_fact(act))) for name, act in stimuli]
+    facts["no_program"] = safe(lambda: _cls(evaluation.evaluate_predicates(None, {}, "L")))
+    return facts
+
+
+def _syntactic(path, epath) -> dict:
+    """secondary signal; 'unknown' whenever the shape is not one the scan knows"""
+    out = {"filter_suffix": "unknown", "scan_before_match": "unknown"}
+    try:
+        tree = ast.parse(path.read_text())
+        fns = {n.name: n for n in tree.body if isinstance(n, ast.FunctionDef)}
+        suffixes = []
+        for n in ast.walk(fns["predicate_extractor"]):
+            if isinstance(n, ast.JoinedStr):
+                parts = n.values
+                consts = [p.value for p in parts if isinstance(p, ast.Constant) and isinstance(p.value, str)]
+                if any(".filter(" in c for c in consts) and len(parts) == 2 and isinstance(parts[1], ast.Constant):
+                    suffixes.append(parts[1].value)
+        if len(suffixes) == 1:
+            out["filter_suffix"] = suffixes[0]
+    except Exception:
+        pass
+    try:
+        etree = ast.parse(epath.read_text())
+        efns = {n.name: n for n in etree.body if isinstance(n, ast.FunctionDef)}
+
+        def lines(fn, name, depth=2):
+            """line numbers (in the entry function) of calls that reach `name`, following module-level helpers"""
+            res = []
+            for n in ast.walk(fn):
+                if isinstance(n, ast.Call):
+                    callee = ast.unparse(n.func).split(".")[-1]
+                    if callee == name:
+                        res.append(n.lineno)
+                    elif depth and callee in efns and callee != fn.name and lines(efns[callee], name, depth - 1):
+                        res.append(n.lineno)
+            return res
+        fn = efns["evaluate_predicates"]
+        scan, res = lines(fn, "check_for_celevalerror"), lines(fn, "predicate_to_koreo_result")
+        if scan and res:
+            out["scan_before_match"] = "yes" if min(scan) < min(res) else "no"
+    except Exception:
+        pass
+    return out
 
 
 def extract() -> dict:
@@ -33,91 +227,39 @@ def extract() -> dict:
     info = {"file": str(path), "sha": _sha(path) if path.exists() else None,
             "file2": str(epath), "sha2": _sha(epath) if epath.exists() else None}
     ok = True
-    suffix = ""
-    cases: list[tuple[str, str]] = []
-    every_case_returns = False
-    scan_first = False
-    handlers_permfail = False
     try:
-        tree = ast.parse(path.read_text())
-        fns = {n.name: n for n in tree.body if isinstance(n, ast.FunctionDef)}
-        # ---- predicate_extractor: the f-string  f"{predicates}<suffix>"  that carries the filter macro
-        for n in ast.walk(fns["predicate_extractor"]):
-            if isinstance(n, ast.JoinedStr):
-                consts = [p.value for p in n.values if isinstance(p, ast.Constant) and isinstance(p.value, str)]
-                if any(".filter(" in c for c in consts):
-                    parts = n.values
-                    if (len(parts) == 2 and isinstance(parts[0], ast.FormattedValue)
-                            and isinstance(parts[1], ast.Constant) and not suffix):
-                        suffix = parts[1].value
-                    else:
-                        ok = False
-        if not suffix:
-            ok = False
-        # ---- predicate_to_koreo_result: for predicate in predicates: match predicate: case …
-        fn = fns["predicate_to_koreo_result"]
-        loops = [n for n in ast.walk(fn) if isinstance(n, ast.For)]
-        matches = [n for n in ast.walk(fn) if isinstance(n, ast.Match)]
-        if len(matches) != 1 or len(loops) > 1 or (loops and loops[0].body != [matches[0]]):
-            ok = False
-        else:
-            m = matches[0]
-            every_case_returns = True
-            for c in m.cases:
-                rc = _ret_class(c.body)
-                if rc is None or c.guard is not None:
-                    ok = False
-                    every_case_returns = False
-                    rc = rc or "?"
-                p = c.pattern
-                if isinstance(p, ast.MatchMapping):
-                    keys = [k.value for k in p.keys if isinstance(k, ast.Constant)]
-                    if len(keys) != len(p.keys) or "assert" not in keys or len(keys) != 2 or p.rest is not None:
-                        ok = False
-                    kind = [k for k in keys if k != "assert"]
-                    cases.append((kind[0] if kind else "?", rc))
-                elif isinstance(p, ast.MatchAs) and p.pattern is None:
-                    cases.append(("_", rc))
-                else:
-                    ok = False
-        # ---- evaluate_predicates: scan of the raw result comes before predicate_to_koreo_result,
-        #      and every exception handler returns a PermFail
-        etree = ast.parse(epath.read_text())
-        efn = next(n for n in etree.body if isinstance(n, ast.FunctionDef) and n.name == "evaluate_predicates")
-        tries = [n for n in efn.body if isinstance(n, ast.Try)]
-        if len(tries) == 1:
-            def first_call(name):
-                ls = [n.lineno for st in tries[0].body for n in ast.walk(st)
-                      if isinstance(n, ast.Call) and ast.unparse(n.func).split(".")[-1] == name]
-                return min(ls) if ls else None
-            i_scan, i_res = first_call("check_for_celevalerror"), first_call("predicate_to_koreo_result")
-            scan_first = i_scan is not None and i_res is not None and i_scan < i_res
-            hs = tries[0].handlers
-            handlers_permfail = bool(hs) and all(_ret_class(h.body) == "PermFail" for h in hs)
-            caught = {ast.unparse(h.type) if h.type is not None else "*" for h in hs}
-            if not ({"Exception", "*"} & caught):
-                handlers_permfail = False
-        else:
-            ok = False
-    except Exception as e:  # unreadable source: the obligation breaks
+        facts = _probe()
+    except Exception as e:  # the functions could not even be imported / called: the obligation breaks
         ok = False
         info["error"] = repr(e)
+        facts = {"cases": [], "order_ok": False, "first_only": [], "delays": [], "filter": [],
+                 "evaluate_predicates": [], "no_program": "?", "bare": "?"}
+    syn = _syntactic(path, epath)
+
+    def pairs(xs):
+        return "[" + ", ".join(f"({lean_str(a)}, {lean_str(b)})" for a, b in xs) + "]"
+
     lines = [
-        "-- REGENERATED by harness/extractors/Predicates.py from src/koreo/predicate_helpers.py and",
-        "-- src/koreo/cel/evaluation.py on every run; do not edit.",
+        "-- REGENERATED by harness/extractors/Predicates.py on every run (facts probed from the real functions of the",
+        "-- tree under VERIF_REPO + a secondary syntactic scan); do not edit.",
         "namespace Koreo.Gen.PredicateTable",
         f"def extractionOk : Bool := {'true' if ok else 'false'}",
-        f"def filterSuffix : String := {lean_str(suffix)}",
-        "def cases : List (String × String) := [" + ", ".join(
-            f"({lean_str(k)}, {lean_str(r)})" for k, r in cases) + "]",
-        f"def everyCaseReturns : Bool := {'true' if every_case_returns else 'false'}",
-        f"def scanBeforeMatch : Bool := {'true' if scan_first else 'false'}",
-        f"def handlersReturnPermFail : Bool := {'true' if handlers_permfail else 'false'}",
+        "/-- (kind key, outcome class), in the order in which the kinds are tried -/",
+        f"def cases : List (String × String) := {pairs(facts['cases'])}",
+        f"def orderDetermined : Bool := {'true' if facts['order_ok'] else 'false'}",
+        f"def bareOutcome : String := {lean_str(facts['bare'])}",
+        f"def firstOnly : List (String × String) := {pairs(facts['first_only'])}",
+        f"def delays : List (String × String) := {pairs(facts['delays'])}",
+        "/-- assertion pattern (t/f/n per position) ↦ surviving positions, or error -/",
+        f"def filterProbe : List (String × String) := {pairs(facts['filter'])}",
+        f"def evaluatePredicates : List (String × String) := {pairs(facts['evaluate_predicates'])}",
+        f"def noProgram : String := {lean_str(facts['no_program'])}",
+        "-- secondary, syntactic (\"unknown\" when the source has a shape the scan does not know)",
+        f"def filterSuffix : String := {lean_str(syn['filter_suffix'])}",
+        f"def scanBeforeMatch : String := {lean_str(syn['scan_before_match'])}",
         "end Koreo.Gen.PredicateTable",
         "",
     ]
     changed = _write("PredicateTable.lean", "\n".join(lines))
-    info.update({"ok": ok, "rewritten": changed, "filter_suffix": suffix, "cases": cases,
-                 "every_case_returns": every_case_returns, "scan_before_match": scan_first,
-                 "handlers_return_permfail": handlers_permfail})
+    info.update({"ok": ok, "rewritten": changed, "facts": facts, "syntactic": syn})
     return info
